@@ -701,3 +701,73 @@ pub fn det_worker_main(args: &[String]) {
         i += stride;
     }
 }
+
+
+/// `sim explain <file>`: prints a replay file in readable form and replays it with the event
+/// log, so that a maintainer can see the interleaving that breaks the property.
+pub fn explain_main(path: &Path) -> i32 {
+    let file: ReplayFile = match std::fs::read_to_string(path).ok().and_then(|s| serde_json::from_str(&s).ok()) {
+        Some(f) => f,
+        None => {
+            eprintln!("harness error: cannot read or parse {}", path.display());
+            return 2;
+        }
+    };
+    println!("property {}  (VERIF_SEED {}, run index {}, minimised: {})", file.property, file.verif_seed, file.run_index, file.minimised);
+    if let Some(v) = &file.violation {
+        println!("violation [{}] {}", v.class, v.detail);
+    }
+    println!("note: {}", file.note);
+    match &file.case {
+        Case::Server { scenario, .. } => {
+            println!("profile {}  knobs {:?}", scenario.profile, scenario.knobs);
+            for (p, st) in &scenario.disk0 {
+                println!("  disk0 {p}: {st:?}");
+            }
+            for (i, op) in scenario.ops.iter().enumerate() {
+                println!("  op {i}: {op:?}");
+            }
+            if let Some(plan) = &file.plan {
+                let s: Vec<String> = plan.iter().map(|d| d.map(|t| t.to_string()).unwrap_or_else(|| "-".into())).collect();
+                println!("schedule (task per decision; 0 client, 1 main loop, 2.. workers; then default policy): {}", s.join(" "));
+            }
+            let scenario = scenario.clone();
+            let plan = file.plan.clone();
+            let res = std::thread::Builder::new()
+                .stack_size(64 << 20)
+                .spawn(move || crate::exec::execute(&scenario, match plan { Some(p) => crate::exec::Sched::Plan(p), None => crate::exec::Sched::Seed(0) }))
+                .unwrap()
+                .join();
+            if let Ok(res) = res {
+                println!("outcome: {:?}", res.outcome);
+                println!("events:");
+                for ev in &res.events {
+                    use crate::world::Ev;
+                    match ev {
+                        Ev::Lock { task, lock, excl, kind } => println!("  {:<10} {:?} {:?}({})", crate::world::role_name(*task), kind, lock, if *excl { "W" } else { "R" }),
+                        Ev::Spawn { task, worker } => println!("  {:<10} spawns worker#{worker}", crate::world::role_name(*task)),
+                        Ev::Point { task, label } => println!("  {:<10} at {label}", crate::world::role_name(*task)),
+                        Ev::DiskRead { task, path, found } => println!("  {:<10} reads {} ({})", crate::world::role_name(*task), path.display(), if *found { "ok" } else { "fails" }),
+                        Ev::ClientSend { op } => println!("  client     sends op {op}"),
+                        _ => {}
+                    }
+                }
+            }
+        }
+        Case::Graph(g) => {
+            println!("include graph (root {}), INCLUDE_DIR {:?}, unreadable {:?}, missing now {:?}, missing at the second selection {:?}", g.files[g.root].path, g.include_dir, g.unreadable, g.hidden, g.second_hidden);
+            for f in &g.files {
+                println!("  {} includes {:?}", f.path, f.includes.iter().map(|i| if i.nested { format!("(nested) {}", i.name) } else { i.name.clone() }).collect::<Vec<_>>());
+            }
+        }
+        Case::Hist(h) => {
+            for (p, t) in &h.disk0 {
+                println!("  disk0 {p}: {t:?}");
+            }
+            for (i, op) in h.ops.iter().enumerate() {
+                println!("  op {i}: {op:?}");
+            }
+        }
+    }
+    0
+}
